@@ -192,6 +192,7 @@ type c10World struct {
 	boundID   map[string]string    // name -> allocation identity at first Bind
 	observed  map[string]time.Time // name -> last gc pass that saw the pod alive
 	released  map[string]bool
+	everRef   map[string]bool // interface id -> some record referenced it at some point
 	pods      []c10PodState
 	nt        bool
 	noGuard   bool
@@ -216,7 +217,7 @@ const c10Nodes = 3 // node-0, node-1: ordinary (trunk-capable when trunk is on);
 
 func c10NewWorld(c *vt.Ctx, s c10Scenario) *c10World {
 	w := &c10World{c: c, s: s, start: time.Now(), seen: map[uint16]bool{}, snaps: map[string]c10Snap{}, gen: map[string]int{},
-		boundID: map[string]string{}, observed: map[string]time.Time{}, released: map[string]bool{}}
+		boundID: map[string]string{}, observed: map[string]time.Time{}, released: map[string]bool{}, everRef: map[string]bool{}}
 	w.pods = make([]c10PodState, len(s.Pods))
 	w.closed = len(s.SeedENIs) == 0 && len(s.SeedRecs) == 0
 
@@ -435,6 +436,7 @@ var c10Edges = map[[2]string]bool{
 }
 
 const c10KnownDetaching = "C10-detaching-from-nonbind"
+const c10KnownDetachingUnbind = "C10-detaching-from-unbind"
 const c10KnownRollback = "C10-rollback-stops-at-first-error"
 
 // observe compares the stored record with the last snapshot; it is called after every
@@ -445,6 +447,9 @@ func (w *c10World) observe(name string) {
 	prev := w.snaps[name]
 	w.snaps[name] = cur
 	actorK := w.actorK
+	for _, a := range cur.Allocs {
+		w.everRef[a.ENI] = true
+	}
 	w.mu.Unlock()
 	switch {
 	case !prev.Present && !cur.Present:
@@ -471,8 +476,13 @@ func (w *c10World) observe(name string) {
 		e := [2]string{prev.Phase, cur.Phase}
 		switch {
 		case cur.Phase == "Deleting", c10Edges[e]:
-		case cur.Phase == "Detaching" && (prev.Phase == "Unbind" || prev.Phase == "Binding" || prev.Phase == "") && w.known(c10KnownDetaching):
+		case cur.Phase == "Detaching" && (prev.Phase == "Binding" || prev.Phase == "") && w.known(c10KnownDetaching):
+			// pod left before the (re)attach finished: the code cancels through Detaching
 			w.c.Label("known:" + c10KnownDetaching)
+			w.edgeKnown++
+		case cur.Phase == "Detaching" && prev.Phase == "Unbind" && w.known(c10KnownDetachingUnbind):
+			// repeated reconcile of a gone/exited fixed-IP pod: Unbind -> Detaching -> Unbind churn
+			w.c.Label("known:" + c10KnownDetachingUnbind)
 			w.edgeKnown++
 		default:
 			w.violate("C10(1): record %s moved %q -> %q, not an edge of the documented machine", name, prev.Phase, cur.Phase)
@@ -767,7 +777,9 @@ func (w *c10World) preGC() map[string]c10Pre {
 }
 
 // retention oracle (C11 b) for one pass of gcCRPodENIs that ran within [t0, t1]
-func (w *c10World) postGC(pre map[string]c10Pre, t0, t1 time.Time, patchFault bool) {
+// (apiFault: some API call of the pass was failed by injection, so the pass may not have
+// been able to observe a pod or to store the observation)
+func (w *c10World) postGC(pre map[string]c10Pre, t0, t1 time.Time, apiFault bool) {
 	names := make([]string, 0, len(pre))
 	for n := range pre {
 		names = append(names, n)
@@ -777,7 +789,7 @@ func (w *c10World) postGC(pre map[string]c10Pre, t0, t1 time.Time, patchFault bo
 		p := pre[name]
 		post := w.read(name)
 		movedToDeleting := post.Present && post.Phase == "Deleting" && p.snap.Phase != "Deleting"
-		if p.alive && p.snap.HasFixed && !patchFault {
+		if p.alive && p.snap.HasFixed && !apiFault {
 			w.observed[name] = t0.Truncate(time.Second)
 		}
 		if !movedToDeleting {
@@ -872,7 +884,7 @@ func (w *c10World) runOp(i int, op c10Op) {
 		w.reconcile(op.K, op.P)
 		t1 := time.Now()
 		if op.K == "gccr" {
-			w.postGC(pre, t0, t1, op.AF&c10AFStatusPatch != 0)
+			w.postGC(pre, t0, t1, op.AF != 0)
 		}
 		if op.CF != 0 {
 			w.c.Label("fault:cloud")
@@ -931,6 +943,9 @@ func (w *c10World) endStep() {
 			continue
 		}
 		switch {
+		case w.everRef[e.ID]:
+			w.c.Fatalf("C10(4): step %d (%s): interface %s (status %s on %q) was referenced by a record, the record is gone but the interface still exists",
+				w.step, w.actor, e.ID, e.Status, e.Instance)
 		case w.cloud.deleteInjected[e.ID]:
 			w.c.Label("leak:rollback-delete-failed")
 			w.nt = true
